@@ -91,3 +91,32 @@ Theorem C05_tie_n_burn : forall frac n c,
   gen_n_burn_from_frac frac n = n_burn None frac n /\ gen_n_burn_explicit c = n_burn (Some c) frac n.
 Proof. exact tie_n_burn. Qed.
 Print Assumptions C05_tie_n_burn.
+
+(* ---------------------------------------------------------------------- where the explicit count comes from: the settings
+   object (Api/Settings.v, tied to src/leaspy/algo/settings.py by harness/translate/settings.py and harness/props/c13_settings.py) *)
+From Coq Require Import String.
+From Leaspy Require Api.Settings Api.SettingsProofs.
+
+(** "unless an explicit count is given": a `n_burn_in_iter` given in the keyword arguments of `AlgorithmSettings` is the value
+    held by the resolved parameters, and the constructor of the sampling algorithms keeps it (the fraction does not overwrite it). *)
+Theorem C05_settings_explicit_count :
+  forall (d kw p : Settings.dict) (v : Settings.jv),
+    NoDup (Settings.keys kw) -> Settings.merge d kw = Settings.Done p ->
+    In ("n_burn_in_iter"%string, v) kw -> v <> Settings.JNull -> Settings.is_dict v = false ->
+    Settings.is_some (Settings.dget p "n_burn_in_iter_frac"%string) = true ->
+    Settings.burn_in_write p = Settings.Done p /\ Settings.explicit_count p "n_burn_in_iter"%string = Some v.
+Proof. exact SettingsProofs.explicit_burn_in_kept. Qed.
+Print Assumptions C05_settings_explicit_count.
+
+(** "is the configured fraction": with neither key given, the count written by the constructor is int(fraction * n_iter) of the
+    fraction of the default file (binary64 product, truncated). *)
+Theorem C05_settings_default_fraction :
+  forall (d kw p : Settings.dict) (fr n : Settings.jv),
+    NoDup (Settings.keys kw) -> Settings.merge d kw = Settings.Done p ->
+    ~ In "n_burn_in_iter"%string (Settings.keys kw) -> ~ In "n_burn_in_iter_frac"%string (Settings.keys kw) ->
+    Settings.dget d "n_burn_in_iter"%string = Some Settings.JNull -> Settings.dget d "n_burn_in_iter_frac"%string = Some fr ->
+    fr <> Settings.JNull -> Settings.dget p "n_iter"%string = Some n ->
+    Settings.burn_in_write p
+    = Settings.obind (Settings.int_of_frac fr n) (fun z => Settings.Done (Settings.dset p "n_burn_in_iter"%string (Settings.JInt z))).
+Proof. exact SettingsProofs.default_burn_in_fraction. Qed.
+Print Assumptions C05_settings_default_fraction.
